@@ -227,19 +227,38 @@ def glue_rules(ctx: Ctx) -> None:
     cp = cache_param[0]
     stores = [s for s in ast.walk(add) if isinstance(s, ast.Assign) and isinstance(s.targets[0], ast.Subscript) and norm(s.targets[0].value) == cp]
     snap = [s for s in ast.walk(add) if isinstance(s, ast.Assign) and norm(s.targets[0]) == norm(loop.iter)]
-    ok5 = False
-    if len(stores) == 1 and len(snap) == 1 and norm(snap[0].value) in ("tuple(sys.modules)", "list(sys.modules)"):
+    why5 = None
+    undec5 = None
+    if len(stores) != 1:
+        why5 = f"{len(stores)} stores into the length cache (1 expected)"
+    elif len(snap) != 1 or norm(snap[0].value) not in ("tuple(sys.modules)", "list(sys.modules)"):
+        why5 = "the scan does not run over one snapshot `tuple(sys.modules)` bound to a name"
+    else:
         s = stores[0]
-        wbody = [a for a in mod.ancestors(loop) if isinstance(a, ast.With)]
-        same_block = wbody and s in wbody[0].body and loop in wbody[0].body and wbody[0].body.index(s) > wbody[0].body.index(loop) \
-            and snap[0] in wbody[0].body and wbody[0].body.index(snap[0]) < wbody[0].body.index(loop)
-        if same_block and norm(s.value) == f"len({norm(loop.iter)})":
-            ok5 = True
-    if ok5:
-        ctx.R.ok("GLUE-5", "the length cache is written after the loop, inside the lock, from the snapshot taken before the loop")
+        g5 = ctx.cfg(add)
+        in_loop = any(a is loop for a in mod.ancestors(s))
+        locked = lambda n_: any(isinstance(a, ast.With) and any(norm(i.context_expr) == "glue_lock" for i in a.items) for a in mod.ancestors(n_))
+        cleanup = [a for a in mod.ancestors(s) if isinstance(a, ast.Try) and (any(s is y or any(s is z for z in ast.walk(y)) for h in a.handlers for y in h.body)
+                                                                         or any(s is y or any(s is z for z in ast.walk(y)) for y in a.finalbody))]
+        if norm(s.value) != f"len({norm(loop.iter)})":
+            why5 = f"the cache is written from `{norm(s.value)}`, not from the length of the snapshot that was scanned"
+        elif in_loop:
+            why5 = "the cache is written inside the scan loop"
+        elif not locked(s) or not locked(snap[0]) or not locked(loop):
+            why5 = "the snapshot, the scan and the cache write are not all inside `with glue_lock`"
+        elif not g5.dominates(g5.node_of(snap[0]), g5.node_of(loop)):
+            why5 = "the snapshot is not taken before the scan on every path"
+        elif not g5.dominates(g5.node_of(loop), g5.node_of(s)):
+            why5 = "the cache write is not preceded by the scan on every path (written before the scan, a concurrent extraction takes the lock-free fast path while glue is still being installed)"
+        elif cleanup:
+            undec5 = "the cache is written in an exception handler / finally clause: cannot tell whether that is only after a complete scan"
+    if why5 is None and undec5 is None:
+        ctx.R.ok("GLUE-5", "the length cache is written after the loop, inside the lock, from the snapshot taken before the loop", "CFG dominance: snapshot -> scan loop -> cache store")
+    elif why5 is None:
+        ctx.R.undecided("GLUE-5", undec5)
     else:
         ctx.R.fail("GLUE-5", mod, stores[0] if stores else add, "the length cache must be written after the scan, inside glue_lock, from the module snapshot taken (inside the lock) before the scan: "
-                   "written earlier or from a fresh len(sys.modules), a concurrent extraction or a module imported during the scan is skipped", construct="length cache store")
+                   f"written earlier or from a fresh len(sys.modules), a concurrent extraction or a module imported during the scan is skipped; here: {why5}", construct="length cache store")
     # ---- GLUE-6 decoration time
     run_sites = [c for c in calls_in(dec, True) if isinstance(c.func, ast.Name) and (c.func.id == dparam or c.func.id == inst.name)]
     mod_alias = {}
